@@ -68,7 +68,10 @@ Definition ggh (r : rgh) : ghist :=
 (* ---------- decoding into model terms ---------- *)
 Definition gstr (T : list str) (i : int) : str := nth (n i) T [].
 Definition glabels (T : list str) (l : rlabels) : labels := map (fun p => (gstr T (fst p), gstr T (snd p))) l.
-Definition ghistc (c : Z) : hist := mkH (Z.odd (c / 2)) (c / 4) (Z.odd c).
+(* histogram code: ((id * 256 + (schema + 100)) * 2 + redok) * 4 + float * 2 + valid; the harness'
+   id already encodes the schema the histogram was sent with *)
+Definition ghistc (c : Z) : hist :=
+  mkH (Z.odd (c / 2)) (c / 2048) (Z.odd c) ((c / 8) mod 256 - 100) (Z.odd (c / 4)).
 Definition gsample (p : int * int) : Z * Z := (z (fst p), z (snd p)).
 Definition ghs (p : int * int) : Z * hist := (z (fst p), ghistc (z (snd p))).
 Definition gts1 (T : list str) (t : rts) : ts1 :=
@@ -198,12 +201,13 @@ Definition agree (c : case) : bool :=
 (* ---------- holds: the property on the implementation's own output ---------- *)
 (* what a request asks to be stored, per decoded VALID series: label set as stored (without
    empty-valued labels), float samples, histograms, exemplars *)
+(* histograms in the form the storage receives them (resolution reduced to schema 8 above it) *)
 Record want := mkW { w_l : labels; w_f : list (Z * Z); w_h : list (Z * hist); w_e : list exemplar }.
 Definition strip_ex (e : exemplar) : exemplar := mkEx (without_empty (ex_labels e)) (ex_t e) (ex_v e).
 Definition want1 (ts : ts1) : option want :=
   let ls := sort_labels (t1_labels ts) in
   if valid_series ls then
-    Some (mkW (without_empty ls) (t1_samples ts) (t1_hists ts)
+    Some (mkW (without_empty ls) (t1_samples ts) (map (fun x => (fst x, reduced (snd x))) (t1_hists ts))
               (map (fun e => strip_ex (mkEx (sort_labels (e1_labels e)) (e1_t e) (e1_v e))) (t1_exs ts)))
   else None.
 Definition want2 (syms : list str) (ts : ts2) : option want :=
@@ -212,7 +216,7 @@ Definition want2 (syms : list str) (ts : ts2) : option want :=
   | Some ls =>
     if meta_ok ts syms && valid_series ls
        && negb (match t2_samples ts, t2_hists ts with [], [] => true | _, _ => false end) then
-      Some (mkW (without_empty ls) (t2_samples ts) (t2_hists ts)
+      Some (mkW (without_empty ls) (t2_samples ts) (map (fun x => (fst x, reduced (snd x))) (t2_hists ts))
              (flat_map (fun e => match desymbolize (e2_refs e) syms with
                                  | Some el => [strip_ex (mkEx el (e2_t e) (e2_v e))]
                                  | None => [] end) (t2_exs ts)))
@@ -305,7 +309,9 @@ Definition holds_step (B A : list mseries) (r : req) (status : Z) (stats : optio
     | _, _ => false
     end
   | 500 =>
-    snap_agree B A && match stats with Some (0, 0, 0) | None => true | _ => false end
+    (* these steps run against a healthy real head: nothing in the generated domain is a storage
+       failure, so a retryable 5xx (and the rollback of the whole request) is itself a failure *)
+    false
   | _ => false
   end.
 
